@@ -12,7 +12,9 @@ from harness.tlc import from_atoms, to_atoms
 from harness.props import c12, c19
 
 POOL = ['\\begin{myv}$ {\\end{myv} \\a{z}', '$m$ {g} \\textbf a \\label b', '\\newcommand{\\p}[2]{x} \\p{a}{b}', '\\p{a}{b}{c} a\r\nb \\x{y}\r\n', '\\begin{e}[o]{r}t\\end{e}', '\\a{x} $y$', '\\left( x \\right]',
-        '\\section[s]{t}\n\n\\begin{itemize}\\item i\\end{itemize}', '$m$ \\[d\\] \\(p\\)', '\\def\\x y %c\nz']
+        '\\section[s]{t}\n\n\\begin{itemize}\\item i\\end{itemize}', '$m$ \\[d\\] \\(p\\)', '\\def\\x y %c\nz',
+        # sources whose parse FAILS while groups / environments are still open (whatever a failed parse leaves behind must not reach later parses)
+        '\\textbf{\\emph{x}', '{{{$x', '\\begin{e}{[{\\begin{f}x\\end{e}', '\\a{\\b[\\c{\\']
 SKIP = ('myv',)
 FORMS = ['str', 'list', 'tuple', 'gen', 'file', 'chars', 'lines']
 EDITS = ['string', 'rename', 'append', 'delete', 'args', 'mathname']
@@ -65,6 +67,9 @@ def snapshot(doc, names=False):
     if isinstance(doc, Failed):
         return {'out': str(doc), 'flat': []}
     o = {'out': str(doc), 'flat': proj.flat_seq(doc.expr._contents)}
+    if names:
+        # line / column answers come from a table built at parse time: one table per document
+        o['lc'] = [list(doc.char_pos_to_line(p)) for p in (0, 2, 5, 9, 14, 22, 31)]
     if names:       # what search sees: the name, opening and closing of every node (class-level state would leak here)
         from TexSoup.data import TexNode
         o['names'] = [[str(n.name), str(getattr(n.expr, 'begin', '')), str(getattr(n.expr, 'end', ''))]
@@ -134,9 +139,11 @@ def _session(rec):
                 want = rec['expect']['%d/%s' % (sid, st['x'][2])]
                 got = snapshot(slots[d], names=True)
                 gnames = sorted(got.pop('names', []))
+                got.pop('lc', None)
                 if got != want:
                     return {'step': n, 'why': 'parse-depends-on-history', 'slot': d, 'got': got['out'], 'want': want['out']}
-                if want['flat'] and gnames != proj.names_from_flat(want['flat']):
+                # (a command taken as an unbraced argument is not reachable through descendants: no names comparison for that source)
+                if want['flat'] and '\\def\\' not in POOL[sid - 1] and gnames != proj.names_from_flat(want['flat']):
                     return {'step': n, 'why': 'names-depend-on-history', 'slot': d, 'got': gnames[:6], 'want': proj.names_from_flat(want['flat'])[:6]}
             elif a == 'edit':
                 if not isinstance(slots[d], Failed):
@@ -150,11 +157,20 @@ def _session(rec):
                 slots[d], hist[d] = None, None
         except Exception as e:   # noqa
             return {'step': n, 'why': 'exception', 'detail': type(e).__name__}
+        if rec.get('light') and n % 25 != 24:
+            continue        # long sessions: the solo-history comparison every 25 steps (the post-parse comparison at every parse)
+        # look at every live document BEFORE computing the references (computing a reference parses again: whatever the
+        # library shares between parses would then be re-targeted to the very source under comparison)
+        try:
+            gots = {k: snapshot(slots[k], names=True) for k in (1, 2) if slots[k] is not None}
+            wants = {k: run_history(hist[k][0], hist[k][1], hist[k][2], hist[k][3]) for k in (1, 2) if slots[k] is not None}
+        except BaseException as e:   # noqa  (RecursionError included: looking at a live document must not fail)
+            return {'step': n, 'why': 'exception', 'detail': 'observing the documents: ' + type(e).__name__}
         for k in (1, 2):
             if slots[k] is None:
                 continue
-            want = run_history(hist[k][0], hist[k][1], hist[k][2], hist[k][3])
-            got = snapshot(slots[k], names=True)
+            want = wants[k]
+            got = gots[k]
             if got != want:
                 return {'step': n, 'why': 'isolation' if k != d else 'history', 'slot': k, 'got': got['out'], 'want': want['out']}
         if slots[1] is not None and slots[2] is not None and not isinstance(slots[1], Failed) and not isinstance(slots[2], Failed):
@@ -237,7 +253,8 @@ def run(chk):
                 chk.case('form:%s:%s:%r' % (src, form, cuts))
                 try:
                     soup, o = parse_obs(feed(src, form, cuts))
-                    got = {'o': 'ok', 'out': to_atoms(o['out']), 'flat': o['flat']}
+                    got = {'o': 'ok', 'out': to_atoms(o['out']), 'flat': o['flat']} if not isinstance(soup, Failed) else \
+                        {'o': soup.name, 'out': [], 'flat': []}
                 except Exception as e:   # noqa
                     got = {'o': type(e).__name__ if type(e).__name__ in obs.DIAG else 'leak:' + type(e).__name__, 'out': [], 'flat': []}
                 if got['o'] != want['o'] or (got['o'] == 'ok' and (got['out'] != want['out'] or got['flat'] != want['flat'])):
@@ -250,7 +267,7 @@ def run(chk):
         b, ob = parse_obs(src)
         if oa != ob:
             chk.violation('C17-twice', {'kind': 'twice', 'input': src})
-        if _ids(a.expr) & _ids(b.expr):
+        if not isinstance(a, Failed) and not isinstance(b, Failed) and _ids(a.expr) & _ids(b.expr):
             chk.violation('C17-shared-state', {'kind': 'twice', 'input': src})
     # (3) hash seeds in fresh interpreters
     d = tlc.workdir('C17_seeds')
@@ -302,6 +319,28 @@ def run(chk):
         if b:
             chk.violation('C17-' + b['why'], {'kind': 'session', 'trace': r['t'], 'mismatch': b})
     chk.count('sessions_replayed', len(recs))
+    # (5) long sessions: TLC simulates behaviours of the same model with several hundred steps over ALL pool sources (including
+    # the ones whose parse fails with groups still open); right after every parse the document must be what the machine
+    # computed for that source - whatever hundreds of earlier parses, failures and edits left behind
+    dl = tlc.workdir('C17_long')
+    steps = 300
+    tlc.write_mc(dl, 'MCL', 'Session', ['MCForms == {"str"}', 'MCEdits == {"append", "args"}'],
+                 'SPECIFICATION Spec\nCONSTANTS\n NSrc = %d\n Forms <- MCForms\n EditKinds <- MCEdits\n MaxSteps = %d\n'
+                 'INVARIANT Dump\nPROPERTY Isolation\nCHECK_DEADLOCK FALSE\n' % (len(POOL), steps))
+    lres = tlc.run(dl, 'MCL', timeout=3000, simulate=2 if quick else 40, depth=steps + 2, seed=chk.seed)
+    chk.add_tlc('long-sessions', lres, 'Session: simulated behaviours of %d steps over %d sources' % (steps, len(POOL)))
+    if lres.violated:
+        raise tlc.MachineryError('Session model violates %s' % lres.violated)
+    lrecs = [r for r in lres.records if 't' in r]
+    for r in lrecs:
+        r['expect'] = session_expect
+        r['light'] = True
+    bad = obs.pmap(_session, lrecs, force=True)
+    for r, b in zip(lrecs, bad):
+        chk.case(json.dumps(r['t']))
+        if b:
+            chk.violation('C17-' + b['why'], {'kind': 'session', 'trace': r['t'][:b['step'] + 1], 'mismatch': b})
+    chk.count('long_sessions_replayed', len(lrecs))
     chk.sample({'session': recs[0]['t'] if recs else None})
     chk.sample({'forms': FORMS, 'example_source': POOL[0]})
     chk.exhaustive = False
